@@ -6,7 +6,9 @@ translation validation : the EXTRACTED verifier runs on every function the real 
                 the standard library, every source string of the test suite, the spec's examples,
                 and generated programs — as compiled, after tree-shaking, and as found in a running
                 environment after merging behind earlier programs
-correspondence: hook H6 traces of real executions vs the verifier's annotation (stack height above
+correspondence: value-level lock-step (H7): the extracted vm/Vm.v `step` reproduces every state of real
+                single-instruction executions (stack, locals, frames, values, final value, error class);
+                hook H6 traces of real executions vs the verifier's annotation (stack height above
                 the frame base and locals count at every executed instruction), which ties the
                 model's stack/locals/frame discipline (vm/Vm.v) to executor.rs
 search        : a rejected function is run on the real VM (the trace outcome): a structural runtime
@@ -16,10 +18,10 @@ from vplib import sexpr, testsrc
 
 MANIFEST = dict(
     category="proof",
-    text="Coq theorem wf_sound: any program accepted by the (extracted) bytecode verifier is safe on every execution of every function with every argument and every outside input — no stack/frame underflow, no undefined local/constant/function/builtin/tuple, no jump out of the function, one consistent height at each join, exactly one result per frame. The verifier then runs on every function the real compiler emits (std, all test-suite sources, spec examples, generated programs), as compiled, tree-shaken and merged (translation validation), and its annotation is compared with instruction-level traces of real executions.",
+    text="Coq theorem wf_sound: any program accepted by the (extracted) bytecode verifier is safe on every execution of every function with every argument and every outside input — no stack/frame underflow, no undefined local/constant/function/builtin/tuple, no jump out of the function, one consistent height at each join, exactly one result per frame. The verifier then runs on every function the real compiler emits (std, all test-suite sources, spec examples, generated programs), as compiled, tree-shaken and merged (translation validation), and its annotation is compared with instruction-level traces of real executions; the machine model itself (vm/Vm.v `step`) is run in lock step with the real executor, one instruction at a time, on the same programs: every intermediate state (operand stack, locals, frames, all values), the final value and the error class must agree.",
     design_ref="§5 C07",
-    note="Trusted: Coq kernel; extraction (ExtrOcamlBasic) and the OCaml driver; the dump of Bytecode by the Rust harness; vm/Vm.v is a hand-written model of executor.rs's stack/locals/frame discipline, tied to the code by the H6 trace comparison (values, builtins and the select machine are abstracted as outside inputs). 'For every program the compiler accepts' is decided per program: proof for the verifier, translation validation for the compiler.",
-    technique="Coq-verified bytecode verifier (soundness proof) + translation validation of compiler output + trace correspondence",
+    note="Trusted: Coq kernel; extraction (ExtrOcamlBasic) and the OCaml driver; the dump of Bytecode by the Rust harness; vm/Vm.v is a hand-written model of executor.rs's stack/locals/frame discipline, tied to the code by the value-level lock-step run (quantum-1 hook; builtin results, IsType/Equal verdicts, pids and select results are outside inputs taken from the real run; the comparison stops at Spawn/Select) and by the H6 trace comparison. 'For every program the compiler accepts' is decided per program: proof for the verifier, translation validation for the compiler.",
+    technique="Coq-verified bytecode verifier (soundness proof) + translation validation of compiler output + lock-step model/code correspondence of the VM model + trace correspondence",
 )
 
 STRUCTURAL = ("StackUnderflow", "FrameUnderflow", "VariableUndefined", "ConstantUndefined", "FunctionUndefined",
@@ -216,7 +218,81 @@ def run(ctx):
         "samples": samples or [{"origin": srcs[0][0], "source": srcs[0][1][:200]}],
         "by_origin": kinds, "rejections_matched_to_known_findings": {str(k): v for k, v in known_hits.items()},
     })
+    lockstep(ctx, [(o, s) for o, s in srcs if not o.startswith("corpus:")])
     if not ok:
         ctx.violation({"kind": "theorem-broken", "theorem": getattr(ctx, "broken_theorem", "?"),
                        "searched": "%d program variants verified, %d rejected, %d trace mismatches" % (variants, rejected, mismatches)},
                       no_input=True)
+
+
+def lockstep(ctx, srcs):
+    """H7: value-level lock-step correspondence of vm/Vm.v `step` with executor.rs. The real executor
+    runs process 0 one instruction at a time (verif quantum 1); the full state (operand stack, locals,
+    frames with pcs - all VALUES included) is dumped before every instruction; the extracted `step`,
+    fed the outside inputs read off the next real state, must reproduce every next state exactly, the
+    final value, and the error class of a failing instruction. This ties the VALUE semantics of the
+    model (used by C10's simulation theorem and C02's compile slice, and by C16) to the code."""
+    qs = ctx.harness("qv_step")
+    drv = ctx.driver("vmstep")
+    if not qs or not drv:
+        return
+    n = ctx.n(700, 8000)
+    rng = ctx.rng
+    pool = list(srcs)
+    rng.shuffle(pool)
+    pick = pool[:n]
+    # targeted shapes the repository sources exercise thinly: every tail-call form (C16's shapes, few
+    # iterations), sends to oneself, process handles
+    from vplib.props import c16
+    pick += [("shape:" + name, tmpl % k) for name, tmpl in c16.SHAPES for k in (0, 1, 3)]
+    pick += [("shape:send-self", "&. =me, 7 me, 8 me, !#'int"),
+             ("shape:send-self-tuple", "&. =me, [1, 0x02] me, x = [3, 4], x me, !#['int, ('int | 'bin)]")]
+    lines = [sexpr.quote(s) for _, s in pick]
+    rc, real = ctx.run_sharded(qs, lines, args=["--limit", str(ctx.n(400, 1500))], timeout=1500)
+    rc2, ver = ctx.run_sharded(drv, real, timeout=1500)
+    if len(real) != len(lines) or len(ver) != len(lines):
+        ctx.violation({"kind": "correspondence-broken", "correspondence": "vm/Vm.v step vs executor.rs (lock-step)",
+                       "what": "harness/driver output misaligned", "cases": len(lines), "real": len(real), "model": len(ver)}, no_input=True)
+        return
+    runs = pairs = skipped = bad = 0
+    hist = {}
+    fins = {}
+    for (origin, src), r, v in zip(pick, real, ver):
+        if not r.startswith("(steps"):
+            skipped += 1
+            continue
+        m = re.search(r"\(fin (\w+)", r)
+        fins[m.group(1) if m else "?"] = fins.get(m.group(1) if m else "?", 0) + 1
+        if v.startswith("(lockstep ok"):
+            runs += 1
+            pairs += int(v.split()[2])
+            for k, c in re.findall(r"\(([\w/-]+) (\d+)\)", v):
+                hist[k] = hist.get(k, 0) + int(c)
+        else:
+            bad += 1
+            if bad <= 3:
+                ctx.violation({"kind": "correspondence-broken", "correspondence": "vm/Vm.v step vs executor.rs (value-level lock-step, hook quantum=1)",
+                               "verdict": v[:600], "source": src, "origin": origin,
+                               "note": "the model of the per-process machine and the executor disagree on one instruction; every theorem stated over vm/Vm.v (C07 wf_sound, C16, C10 renaming_simulation, C02 compile slice) rests on this correspondence"},
+                              no_input=True)
+    # negative controls: a real trace with ONE program counter altered must be refused
+    tampered = []
+    for r in real:
+        ms = list(re.finditer(r"\((\d+) (\d+) (\d+) (\d+)\)\)\) \(st", r)) if r.startswith("(steps") else []
+        if len(ms) >= 4:
+            m = ms[2]
+            tampered.append(r[:m.start(4)] + str(int(m.group(4)) + 1) + r[m.end(4):])
+        if len(tampered) >= 40:
+            break
+    neg_caught = 0
+    if tampered:
+        rc3, tv = ctx.run_bin(drv, tampered, timeout=600)
+        neg_caught = sum(1 for v in tv if v.startswith("(lockstep mismatch"))
+        if neg_caught != len(tampered):
+            ctx.violation({"kind": "correspondence-broken", "correspondence": "vm/Vm.v step vs executor.rs (lock-step)",
+                           "what": "the lock-step comparison accepted a trace with an altered program counter (negative control)",
+                           "accepted": len(tampered) - neg_caught, "of": len(tampered)}, no_input=True)
+    ctx.cov.update({"lockstep_negative_controls": len(tampered), "lockstep_negative_controls_refused": neg_caught})
+    ctx.cov.update({"lockstep_runs": runs, "lockstep_state_pairs_checked": pairs, "lockstep_not_compiled": skipped,
+                    "lockstep_mismatches": bad, "lockstep_by_instruction": hist, "lockstep_final_outcomes": fins})
+    ctx.cov["traces_validated_against_impl"] = ctx.cov.get("traces_validated_against_impl", 0) + runs
